@@ -437,10 +437,25 @@ def main():
         lines.append("KNOWN-FINDING: property=%s %s [%s]" % (pid, k["what"], k["obligation"]))
     seen = set()
     vio_out = []
+    bounded_ok = False
     if undecided and not violations:
-        for u in undecided:
-            lines.append("UNDECIDED property=%s %s" % (pid, u))
-        rc = 2
+        ran = [w for w in wit_runs if w.get("cases", 0) > 0 and not w.get("error")]
+        if ran and len(ran) == len(wit_runs):
+            # the proof could not be re-established on this tree (restructured code, lost anchor, unsupported construct): nothing is
+            # PROVED by this run. Every bounded witness generator of the property ran to completion against the real code of this
+            # tree and found no contradiction: the property held on everything explored -> exit 0, evidence level `exploration`
+            bounded_ok = True
+            for u in undecided:
+                lines.append("PROOF-UNDECIDED property=%s %s" % (pid, u))
+            lines.append("OK-BOUNDED property=%s proof undecided on this tree; bounded witnesses %s: %d cases, none contradicts the oracle (NOT a proof)" % (
+                pid, ",".join(w["name"] for w in ran), sum(w["cases"] for w in ran)))
+        else:
+            for u in undecided:
+                lines.append("UNDECIDED property=%s %s" % (pid, u))
+            for w in wit_runs:
+                if w.get("error"):
+                    lines.append("UNDECIDED property=%s witness %s: %s" % (pid, w["name"], str(w["error"])[:300]))
+            rc = 2
     for f in violations:
         if f["label"] in seen:
             continue
@@ -452,10 +467,10 @@ def main():
     if undecided and violations:
         for u in undecided:
             lines.append("note: also undecided: %s" % u)
-    write_evidence(pid, pinfo, tier, seed, results, known_hit, vio_out, undecided, time.time() - t0, reg, foreign, wit_runs)
+    write_evidence(pid, pinfo, tier, seed, results, known_hit, vio_out, undecided, time.time() - t0, reg, foreign, wit_runs, bounded_ok)
     for l in dict.fromkeys(lines):
         print(l)
-    if rc == 0:
+    if rc == 0 and not bounded_ok:
         tot_o = sum(r["obligations"] for r in results)
         tot_d = sum(r["discharged"] for r in results)
         print("OK property=%s units=%s obligations=%d discharged=%d known_findings=%d other_property_failures=%d wall=%.1fs" % (
@@ -501,7 +516,7 @@ def replay(path):
     return 1
 
 
-def write_evidence(pid, pinfo, tier, seed, results, known_hit, violations, undecided, wall, reg, foreign=(), wit_runs=()):
+def write_evidence(pid, pinfo, tier, seed, results, known_hit, violations, undecided, wall, reg, foreign=(), wit_runs=(), bounded_ok=False):
     functions = []
     trusted = []
     assumptions = list(pinfo.get("assumptions", []))
@@ -559,7 +574,18 @@ def write_evidence(pid, pinfo, tier, seed, results, known_hit, violations, undec
         rule="obligation = one function-level SMT query reported by Verus (exec/proof function or spec termination), one CBMC property, or one Kani check; counted by the back end on this run",
         exhaustive=False,
     )
-    doc = dict(property_id=pid, tier=tier, seed=seed, level="proof", coverage=cov, assumptions=assumptions,
+    level = "proof"
+    if undecided and not violations:
+        # nothing was proved on this tree; what the run covered is the bounded exploration (if any)
+        level = "exploration"
+        n = sum(w.get("cases", 0) for w in wit_runs)
+        cov.update(evaluations=n, distinct_nontrivial=n if bounded_ok else 0,
+                   rule="PROOF UNDECIDED on this tree (%s). Cases = inputs/histories enumerated by the witness generators (witness/*.rs, each case distinct by construction of the enumeration, each drives the real code and is compared with the oracle written from the statement); bound: %s"
+                        % ("; ".join(undecided)[:600], " | ".join("%s: %s" % (w["name"], w.get("bound", "")) for w in wit_runs)[:3000]),
+                   explanation="the deductive check is undecided on this tree; verdict rests on the bounded witnesses only" if bounded_ok else "undecided: no verdict")
+        cov["obligations"] = 0
+        cov["discharged"] = 0
+    doc = dict(property_id=pid, tier=tier, seed=seed, level=level, coverage=cov, assumptions=assumptions,
                wall_s=round(wall, 2), violations=len(violations))
     if violations:
         doc["violation_detail"] = [dict(obligation=v["label"], function=v.get("fn"), location=v.get("src"), message=v["msg"]) for v in violations]
